@@ -1,5 +1,6 @@
 """C17 (interrupted / failed edit never loses the metafile) and C18 (read-only
 commands, create writes one file, rename never clobbers)."""
+import errno
 import os
 import shutil
 
@@ -12,7 +13,9 @@ from .meta_family import FIELDS, gen_opts, gen_request
 
 KNOWN_AUDIT = {"open-w", "os.remove", "os.rename", "os.chmod", "os.truncate", "os.link", "os.symlink",
                "tempfile.mkstemp", "shutil.copymode", "shutil.copyfile", "shutil.copystat", "os.utime", "os.mkdir",
-               "os.rmdir"}
+               "os.rmdir",
+               # composite helpers: every primitive they use (rename, open, sendfile, unlink) raises its own event / is wrapped
+               "shutil.move"}
 
 
 def _edit_call(mpath, req, via):
@@ -90,13 +93,13 @@ def _phase2(workdir, orig, req, via, fault, setup):
         lt.stop()
         return {"exc": exc, "reached": lt.count >= fault[1]}
     ff = faults.FsFaults()
-    ff.fault = (fault[1], tuple(fault[2]))
+    ff.fault = (fault[1], tuple(fault[2])) if fault[0] == "op" else fault      # ("op", idx, action) | ("multi", [...])
     ff.install()
     ff.active = True
     exc = _edit_call(mpath, req, via)
     ff.active = False
     ff.uninstall()
-    return {"exc": exc, "reached": len(ff.ops) > fault[1]}
+    return {"exc": exc, "reached": len(ff.ops) > (fault[1] if fault[0] == "op" else 0)}
 
 
 def _phase_unencodable(workdir, orig, args, setup):
@@ -226,9 +229,13 @@ class C17:
                                                             "os.rename", "os.chmod", "os.fchmod", "os.truncate",
                                                             "os.ftruncate", "os.link"))
         if unknown or n_audit_w != n_ops_w:
-            return {"inconclusive": f"trace incomplete: unknown audit events {unknown}, audit write events "
-                                    f"{n_audit_w} vs wrapped {n_ops_w}", "traceback": str(p1["audit"]) + str(p1["ops"])}
-        counters["traces_complete"] = 1
+            # the edit used a primitive the wrappers do not know: the faults that CAN be injected are still injected and
+            # judged (a violation found this way is real); the case just does not count towards 'traces_complete',
+            # without which the run as a whole is inconclusive rather than held
+            counters["traces_with_unwrapped_events"] = 1
+            counters["unwrapped:" + ",".join(unknown)[:80] + f"/audit={n_audit_w}/wrapped={n_ops_w}"] = 1
+        else:
+            counters["traces_complete"] = 1
         reqshape = sorted((f, r[0]) for f, r in case["req"].items())
         # ---------------- enumerate faults
         flist = []
@@ -258,6 +265,18 @@ class C17:
                     if (path.startswith("fd") or path.startswith("raw:")) and nb:
                         # descriptor-level write: the kernel may accept only part of the data WITHOUT raising
                         flist.append((("op", idx, ("short-silent", nb)), "write-short-silent", kind))
+        # the swap itself is refused (EBUSY on a bind-mounted file, EPERM in a sticky directory ...) AND whatever the
+        # implementation does next is hit as well: a fall-back that rewrites the metafile in place shows here
+        for idx, (kind, path, extra) in enumerate(p1["ops"]):
+            if kind not in ("os.replace", "os.rename"):
+                continue
+            n_open = sum(1 for o in p1["ops"][:idx + 1] if o[0] in ("open-w", "os.open-w"))
+            n_write = sum(1 for o in p1["ops"][:idx + 1] if o[0] == "write")
+            refused = (idx, ("error", errno.EBUSY))
+            for second, tag in ((("match", "open-w|os.open-w", n_open, ("crash-after",)), "then-crash-after-next-open"),
+                                (("match", "write", n_write, ("crash-after-bytes", 1)), "then-crash-in-next-write"),
+                                (("match", "write", n_write, ("error", faults.ERRNOS["ENOSPC"])), "then-enospc-in-next-write")):
+                flist.append((("multi", [refused, second]), "swap-refused-" + tag, kind))
         execs = 0
         bad_samples = []
         for n, (fault, fkind, where) in enumerate(flist):
